@@ -126,7 +126,7 @@ fn record(prop: &str, fam: &str, n: usize, seed: u64, size: usize, len: usize, k
         let all = |kind: &str, ety: &str, mode: &str| run::run_case_as(&c, kind, ety, mode).ok();
         let assertion = replay::real_asserts(prop, &c, &o, &all);
         let rec = json!({"g": g, "inp": inp, "kind": kind, "ety": ety, "mode": mode, "assertion": assertion,
-            "res": {"ok": oj["ok"], "out": oj["out"], "errs": oj["errs"], "panic": oj["panic"], "insp": oj["insp"]},
+            "res": {"ok": oj["ok"], "out": oj["out"], "errs": oj["errs"], "panic": oj["panic"], "insp": oj["insp"], "leaked": oj["leaked"]},
             "obs": oj["obs"], "mask": mask.to_json()});
         writeln!(w, "{}", rec).map_err(|e| e.to_string())?;
         k += 1;
